@@ -212,6 +212,9 @@ class Contract:
     crosscheck: int = 12
     replayable: bool = True  # False: inputs are abstract models with no concrete realisation (no native replay)
     setup_in_crosscheck: bool = False
+    tiers: tuple = ("quick", "thorough")  # ("thorough",): too heavy for the every-change tier
+    weight: int = 0  # scheduling hint: heavier jobs are started first
+    lemmas: list[Callable[[Any], Any]] = field(default_factory=list)  # proved from the precondition first, then assumed by every other obligation
     replay_hook: Callable[[dict], dict] | None = None  # custom native replay: model-evaluated inputs -> {"confirmed": bool, ...}
 
     # -- fluent helpers
@@ -226,6 +229,12 @@ class Contract:
     def ghost(self, name: str, gen: Gen) -> "Contract":
         """An input that only the contract sees (not passed to the function)."""
         self.ghosts.append((name, gen))
+        return self
+
+    def lemma(self, f: Callable[[Any], Any]) -> "Contract":
+        """A fact about the inputs that is PROVED as its own obligation (from the preconditions only) and then
+        handed to every other obligation of the contract as a hypothesis."""
+        self.lemmas.append(f)
         return self
 
     def requires(self, f: Callable[[Any], Any]) -> "Contract":
